@@ -580,7 +580,7 @@ func (n *hostNet) listen0(tag, network string, laddr netip.AddrPort) (*Sock, err
 	h := n.h
 	w := h.w
 	if w.ParkListens {
-		if p := w.park("listen", fmt.Sprintf("%s/%s/%s", h.Name, network, laddr)); p.Fail != nil {
+		if p := w.park("listen", fmt.Sprintf("%s/%s/%s/%s", h.Name, network, laddr, tag)); p.Fail != nil {
 			w.mu.Lock()
 			w.Stats.ListenErrors++
 			w.mu.Unlock()
@@ -1032,6 +1032,19 @@ func (h *Host) SockByPort(port uint16) *Sock {
 	defer h.w.mu.Unlock()
 	for ap, s := range h.bound {
 		if ap.Port() == port && !s.closed && s.Tag != "service" {
+			return s
+		}
+	}
+	return nil
+}
+
+// FindSockAnywhere returns the open socket bound exactly to addr on any host (relay allocations live on
+// the relay host), or nil.
+func (w *World) FindSockAnywhere(addr netip.AddrPort) *Sock {
+	w.mu.Lock()
+	defer w.mu.Unlock()
+	for _, h := range w.hosts {
+		if s, ok := h.bound[addr]; ok && !s.closed {
 			return s
 		}
 	}
